@@ -17,7 +17,7 @@ import (
 	"time"
 
 	"github.com/gittuf/gittuf/verifsim/core"
-	_ "github.com/gittuf/gittuf/verifsim/props"
+	"github.com/gittuf/gittuf/verifsim/props"
 )
 
 func usage() {
@@ -131,6 +131,12 @@ func main() {
 			sort.Strings(ids)
 		}
 		os.Exit(core.SelfTestDeterminism(ids, *n, *seed))
+	case "diffstore":
+		fs := flag.NewFlagSet("diffstore", flag.ExitOnError)
+		n := fs.Int("n", 10, "sequences")
+		seed := fs.Uint64("seed", envSeed(), "")
+		_ = fs.Parse(os.Args[2:])
+		os.Exit(props.DiffStore(*seed, *n))
 	case "replay":
 		if len(os.Args) < 3 {
 			usage()
